@@ -267,9 +267,36 @@ def fingerprint(trace):
     return h
 
 
+def encode(acts):
+    z = 0
+    for k, a in enumerate(acts):
+        if a[0] == 'tick':
+            d = 1
+        elif a[0] == 'spawn':
+            d = 2 + 8 * a[1]
+        elif a[0] == 'exit':
+            d = (4 if a[2] else 3) + 8 * a[1]
+        else:
+            d = 5 + 8 * a[1]
+        assert 0 < d < 2 ** 20 and (a[0] == 'tick' or a[1] >= 0)
+        z |= d << (20 * k)
+    return z
+
+
+def balanced_eval(ctx, schedules, exprs, n_sh=8):
+    """coq_eval with the expressions dealt round-robin by decreasing schedule length, so that shards cost about the same."""
+    order = sorted(range(len(exprs)), key=lambda k: -len(schedules[k]['acts']))
+    perm = [k for r in range(n_sh) for k in order[r::n_sh]]
+    vals = coq_eval(ctx, HEADER, [exprs[k] for k in perm], shard=max(1, (len(exprs) + n_sh - 1) // n_sh), label='fp')
+    out = [None] * len(exprs)
+    for k, v in zip(perm, vals):
+        out[k] = v
+    return out
+
+
 def model_fingerprints(ctx, schedules):
-    exprs = [f'fingerprint {zlit(s["max"])} {coq_actions(s["acts"])}' for s in schedules]
-    return coq_eval(ctx, HEADER, exprs, shard=max(50, min(400, len(exprs) // 16 + 1)), label='fp')
+    exprs = [f'fingerprint {zlit(s["max"])} (decode {len(s["acts"])} {encode(s["acts"])})' for s in schedules]
+    return balanced_eval(ctx, schedules, exprs)
 
 
 def impl_results(ctx, schedules):
